@@ -360,7 +360,7 @@ pub fn run_token_level(ctx: &Ctx, rep: &mut Report) {
         "token_level_exhaustive".into(),
         json!({"pool_inputs": pool.len(), "schedules": total * exact_variants, "note": "every partition of every pool input (<=12 chars), default and exact_errors"}),
     );
-    let out = run_random(ctx.seed, ctx.tier.pick(300_000, 15_000_000), 400, decode_random, check);
+    let out = run_random(ctx.seed, ctx.tier.pick(1_500_000, 20_000_000), 400, decode_random, check);
     rep.absorb(out);
 }
 
@@ -523,7 +523,7 @@ pub fn run(ctx: &Ctx) -> Report {
     report_known(ctx, &mut rep, &|v| replay(&ctx.strict_clone(), v));
     run_regressions(ctx, &mut rep, &|v| replay(&ctx.strict_clone(), v));
     run_token_level(ctx, &mut rep);
-    let out = run_random(ctx.seed ^ 0x33, ctx.tier.pick(150_000, 6_000_000), 1500, decode_tree, check_tree);
+    let out = run_random(ctx.seed ^ 0x33, ctx.tier.pick(600_000, 10_000_000), 1500, decode_tree, check_tree);
     rep.absorb(out);
     for l in [
         "cut after CR",
